@@ -44,6 +44,8 @@ def build_classes(spec, faults):
             ann[a["name"]] = int if a["kind"] == "int" else List[int]
             dflt = a["default"]
             inv = a.get("invalidated_by")
+            if dflt is None:
+                continue  # declared without a default: deleting it while unset fails
             if inv:
                 ns[a["name"]] = Attr(default=list(dflt) if isinstance(dflt, list) else dflt, invalidated_by=list(inv))
             else:
@@ -58,6 +60,9 @@ def build_classes(spec, faults):
                 self.u = 0  # unmanaged attribute
                 for r in post_init_reads:
                     getattr(self, r)
+                if spec.get("post_init_bump"):
+                    # a dependency re-assigned after the caches were filled, still inside __post_init__
+                    setattr(self, spec["post_init_bump"], getattr(self, spec["post_init_bump"]) + 1)
             ns["__post_init__"] = post_init
         return ns
 
@@ -106,12 +111,12 @@ class C11(Check):
     # -- graph generation ---------------------------------------------------------------------
     def gen_spec(self, src):
         attrs = [{"name": "a", "kind": "int", "default": 1}, {"name": "b", "kind": "int", "default": 2},
-                 {"name": "xs", "kind": "list", "default": [1, 2]}]
+                 {"name": "xs", "kind": "list", "default": [1, 2]}, {"name": "c", "kind": "int", "default": None}]
         if src.chance(0.5):
             attrs[1]["invalidated_by"] = ["a"]  # attribute -> attribute chain
         if src.chance(0.25):
             attrs[2]["invalidated_by"] = [src.choice(["a", "b"])]
-        base_names = ["a", "b", "xs", "u"]
+        base_names = ["a", "b", "xs", "u", "c"]
         props = []
         n_props = src.randint(1, 3)
         for i in range(n_props):
@@ -129,6 +134,7 @@ class C11(Check):
             props.append({"name": name, "cache": src.chance(0.65), "invalidated_by": deps, "reads": reads,
                           "overridable": True})
         spec = {"attrs": attrs, "props": props, "eager": src.chance(0.4),
+                "post_init_bump": src.choice([None, None, "a", "b"]),
                 "post_init_reads": src.sample([p["name"] for p in props], src.randint(0, len(props)))}
         if src.chance(0.35):
             cands = base_names + [p["name"] for p in props]
@@ -194,7 +200,7 @@ class C11(Check):
             bad = src.chance(0.15)
             op["plan"] = ["cb", 1] if src.chance(0.12) else None
             if k in ("set", "del", "with", "update_attr", "reset_attr", "transform"):
-                op["name"] = src.choice(["a", "b", "xs"])
+                op["name"] = src.choice(["a", "b", "xs", "c", "c"] if k in ("del", "reset_attr", "set", "with") else ["a", "b", "xs"])
                 if op["name"] == "xs":
                     op["v"] = "bad" if bad else ["list", [src.choice([0, 3, 9])]]
                     op["fn"] = "zero" if bad else src.choice(["rev", "app9"])
@@ -206,7 +212,7 @@ class C11(Check):
                 op["v"] = "bad" if bad else src.choice([0, 1, 2, 9])
                 op["fn"] = "tostr" if bad else "inc"
             elif k == "update":
-                names = src.sample(["a", "b", "xs"], src.randint(1, 2))
+                names = src.sample(["a", "b", "xs", "c"], src.randint(1, 2))
                 op["kw"] = {n: ("bad" if bad and j == 0 else (["list", [4]] if n == "xs" else src.choice([0, 3, 8])))
                             for j, n in enumerate(names)}
             elif k == "ttransform":
@@ -268,7 +274,7 @@ class C11(Check):
             elif k == "ttransform":
                 call, mutated = (lambda: X.transform(**{n: fn(f) for n, f in op["kw"].items()}, **inp)), list(op["kw"])
             elif k == "reset":
-                call, mutated = (lambda: X.reset(**inp)), ["a", "b", "xs"]
+                call, mutated = (lambda: X.reset(**inp)), ["a", "b", "xs", "c"]
             else:
                 raise ValueError(k)
         faults.begin(tuple(op["plan"]) if op.get("plan") else None)
@@ -378,6 +384,11 @@ class C11(Check):
         for a in spec["attrs"]:
             if a["name"] in closure and a["name"] not in mutated:
                 got = target.__dict__.get(a["name"], NOSLOT)
+                if a["default"] is None:
+                    if got is not NOSLOT:
+                        ctx.violate(dict(sig, invariant="invalidated_attribute_back_at_default", attr=a["name"]),
+                                    {"op": op, "got": strip_addr(repr(got))[:100], "want": "absent"}, idx)
+                    continue
                 if got is NOSLOT or abs_value(got) != abs_value(a["default"]):
                     ctx.violate(dict(sig, invariant="invalidated_attribute_back_at_default", attr=a["name"]),
                                 {"op": op, "got": strip_addr(repr(got))[:100], "want": a["default"]}, idx)
